@@ -342,6 +342,12 @@ def check(run):
                         claim_l0 = sym32('CARRIED')
                         claim = pruned(it, 'claim', claim_l0)
                     claim_repr = claim.attrs['_hash']
+                    try:
+                        # the explicitly recomputed representation hash: equal to the cached one for level-0 cells (C01.D5); for a cell of level > 0 it
+                        # is another digest of the cell's OWN content - either is "its own hash", neither is the level-0 (virtual) hash
+                        claim_repr2 = cm.call_method(it, claim, 'calculate_representation_hash')
+                    except (RaiseEx, Fail):
+                        claim_repr2 = None
                     addr = Inst(prog.cls('Address'))
                     addr.attrs.update(wc=K(0), hash_part=K(K1))
 
@@ -353,7 +359,7 @@ def check(run):
                     blk = Inst(prog.cls('BlockIdExt'))
                     blk.attrs.update(root_hash=sym32('BLOCKHASH'), file_hash=sym32('FH'), workchain=K(0), shard=K(1 << 63), seqno=K(9))
                     info = dict(it=it, blk_l0=blk_root.l0, BH=sym32('BLOCKHASH'), state_l0=state_root.l0, ST=ST, A=A,
-                                claim_repr=claim_repr, claim_l0=claim_l0, acc1=parts['acc1'])
+                                claim_repr=claim_repr, claim_repr2=claim_repr2, claim_l0=claim_l0, acc1=parts['acc1'])
                     try:
                         r = it.invoke(f_acc, [K(b'proof-bytes'), blk, addr, claim, K(True)], {})
                         return ('accept', r, info)
@@ -367,6 +373,9 @@ def check(run):
                         c1 = eq_decided(it, info['blk_l0'], info['BH'])
                         c2 = eq_decided(it, info['state_l0'], info['ST'])
                         c3 = eq_decided(it, info['A'], info['claim_repr'])
+                        if c3 is not True and info.get('claim_repr2') is not None and eq_decided(it, info['A'], info['claim_repr2']) is True \
+                                and eq_decided(it, info['A'], info['claim_l0']) is not True:
+                            c3 = True
                         cell0 = None
                         if isinstance(res, Inst) and isinstance(res.attrs.get('cell'), Inst):
                             try:
